@@ -249,6 +249,72 @@ func init() {
 		sb.WriteString("\ndef fanoutQueueStmts : List String := " + LeanStrList(c05Stmts(FindFunc(fqf, "fanOutQueue", "Queue"))) + "\n")
 		sb.WriteString("\ndef resetReplicaIndexArgs : List String := " +
 			LeanStrList(c05CallArgs(FindFunc(pf, "partition", "ResetReplicaIndex"), "SetAppendedSeq")) + "\n")
+		// ---- round 12: index-page positioning. The switch test of persistMetaOfMessage (its FIRST
+		// if-condition), every assignment of persistMetaOfMessage and initDataPageIndex (q.indexPage and
+		// q.indexPageIndex are assigned together, nowhere else), and the second caller of SetAppendedSeq
+		// (replica/replicator.go ResetAppendIndex reaches the FanOutQueue of the consumer group)
+		sb.WriteString("\n-- index page positioning (Model/C05IndexPos.lean)\n")
+		pmFn := pm
+		idp := FindFunc(qf, "queue", "initDataPageIndex")
+		if pmFn == nil || idp == nil {
+			problems = append(problems, "persistMetaOfMessage / initDataPageIndex not found")
+		}
+		pmConds := c05CondsNil(pmFn)
+		sw := ""
+		if len(pmConds) > 0 {
+			sw = pmConds[0]
+		}
+		sb.WriteString("\ndef persistSwitchCond : String := " + strconv.Quote(sw) + "\n")
+		sb.WriteString("\ndef persistConds : List String := " + LeanStrList(pmConds) + "\n")
+		sb.WriteString("\ndef persistAssigns : List String := " + LeanStrList(c05Assigns2(pmFn)) + "\n")
+		sb.WriteString("\ndef initDataPageIndexConds : List String := " + LeanStrList(c05CondsNil(idp)) + "\n")
+		sb.WriteString("\ndef initDataPageIndexAssigns : List String := " + LeanStrList(c05Assigns2(idp)) + "\n")
+		var idxWriters []string
+		for _, d := range qf.Decls {
+			fd, ok := d.(*ast.FuncDecl)
+			if !ok || fd.Body == nil {
+				continue
+			}
+			for _, a := range c05Assigns2(fd) {
+				if strings.HasPrefix(a, "q.indexPage =") || strings.HasPrefix(a, "q.indexPage,") || strings.HasPrefix(a, "q.indexPageIndex =") ||
+					strings.HasPrefix(a, "q.indexPageIndex++") || strings.HasPrefix(a, "q.indexPageIndex--") {
+					idxWriters = append(idxWriters, fd.Name.Name)
+					break
+				}
+			}
+		}
+		sb.WriteString("\ndef indexPageWriters : List String := " + LeanStrList(idxWriters) + "\n")
+		if _, rf, rerr := ParseFile(repo, "replica/replicator.go"); rerr == nil {
+			rai := FindFunc(rf, "replicator", "ResetAppendIndex")
+			if rai == nil {
+				problems = append(problems, "replicator.ResetAppendIndex not found")
+			}
+			sb.WriteString("\ndef resetAppendIndexCalls : List String := " + LeanStrList(c05CallsNoLog(rai)) + "\n")
+			sb.WriteString("\ndef resetAppendIndexArgs : List String := " + LeanStrList(c05CallArgs(rai, "SetAppendedSeq")) + "\n")
+		} else {
+			problems = append(problems, "replica/replicator.go not parsed")
+			sb.WriteString("\ndef resetAppendIndexCalls : List String := []\n\ndef resetAppendIndexArgs : List String := []\n")
+		}
+		// ---- the configured page size: which functions of queue.go read or write the field q.pageSize
+		// (the model has no such parameter: only NewQueue may look at it, to create the data factory)
+		var psUsers []string
+		for _, d := range qf.Decls {
+			fd, ok := d.(*ast.FuncDecl)
+			if !ok || fd.Body == nil {
+				continue
+			}
+			uses := false
+			ast.Inspect(fd.Body, func(n ast.Node) bool {
+				if se, ok := n.(*ast.SelectorExpr); ok && se.Sel.Name == "pageSize" {
+					uses = true
+				}
+				return true
+			})
+			if uses {
+				psUsers = append(psUsers, fd.Name.Name)
+			}
+		}
+		sb.WriteString("\ndef pageSizeUsers : List String := " + LeanStrList(psUsers) + "\n")
 		sb.WriteString("\n-- facts that could not be re-extracted (placeholders were emitted for them)\ndef extractionProblems : List String := " + LeanStrList(problems) + "\n")
 		return sb.String(), nil
 	}})
@@ -695,4 +761,12 @@ func c05UnlockedAccesses(put *ast.FuncDecl) []string {
 		visit(st)
 	}
 	return out
+}
+
+// c05Assigns2 is c05Assigns for a possibly missing function.
+func c05Assigns2(fd *ast.FuncDecl) []string {
+	if fd == nil || fd.Body == nil {
+		return nil
+	}
+	return c05Assigns(fd)
 }
